@@ -61,6 +61,11 @@ def arrays(tier, rng, table, maxn_exh=4):
             a = [];
             while len(a) < n: a += [rng.choice(al)] * rng.randint(1, 9)
             out.append((dt, a[:n]))
+        # lengths beyond any plausible shortcut threshold / block size (many runs, and exactly a power of two)
+        for n, mx in ((1500, 9), (4096, 3)) if dt in ("int64", "uint8", "float64", "bool") else ():
+            a = []
+            while len(a) < n: a += [rng.choice(al)] * rng.randint(1, mx)
+            out.append((dt, a[:n]))
     return out
 
 
